@@ -352,6 +352,12 @@ func replayFile(path string) int {
 	in := r.Case.Input
 	q, _ := in["query"].(string)
 	if q == "" {
+		// C05 goals and query texts, C16 calls: the recorded text is the query itself
+		if k, _ := in["kind"].(string); k == "goal" || k == "query" || strings.HasPrefix(r.Case.Class, "C16:") {
+			q, _ = in["text"].(string)
+		}
+	}
+	if q == "" {
 		fmt.Println("replay: this file records no directly replayable query; see its fields")
 		return 0
 	}
